@@ -386,6 +386,13 @@ func genXform(rng *RNG, schemas ast.Schemas, idx int, allowVariants bool) xform 
 		existing := t.field
 		x.descr = fmt.Sprintf("add_fields(to %s.%s: added%d:string, %s:int) [%s]", t.pkg, t.spelledObj, idx, existing, t.class)
 		x.yaml = fmt.Sprintf("  - add_fields:\n      to: %s.%s\n      fields:\n        - {name: added%d, type: %s, required: true}\n        - {name: %s, type: %s}\n", t.pkg, t.spelledObj, idx, yamlType("string", "", ""), existing, yamlType("int", "", ""))
+		newFields := []ast.StructField{{Name: fmt.Sprintf("added%d", idx), Type: modelType("string", "", ""), Required: true}, {Name: existing, Type: modelType("int", "", "")}}
+		if rng.Chance(0.5) {
+			// the same new name listed twice: a field that exists (by then) is not added again
+			x.yaml += fmt.Sprintf("        - {name: added%d, type: %s}\n", idx, yamlType("bool", "", ""))
+			x.descr += " + added again as bool"
+			newFields = append(newFields, ast.StructField{Name: fmt.Sprintf("added%d", idx), Type: modelType("bool", "", "")})
+		}
 		x.model = func(m ast.Schemas) (ast.Schemas, bool) {
 			expectErr := false
 			forEachObject(m, func(s *ast.Schema, o ast.Object) (ast.Object, bool) {
@@ -396,7 +403,7 @@ func genXform(rng *RNG, schemas ast.Schemas, idx int, allowVariants bool) xform 
 					expectErr = true
 					return o, true
 				}
-				for _, nf := range []ast.StructField{{Name: fmt.Sprintf("added%d", idx), Type: modelType("string", "", ""), Required: true}, {Name: existing, Type: modelType("int", "", "")}} {
+				for _, nf := range newFields {
 					exists := false
 					for _, f := range o.Type.Struct.Fields {
 						if f.Name == nf.Name {
